@@ -21,7 +21,7 @@ func init() {
 				"R2.passthrough": "argument / result pass-through table of Add, Remove, RemoveAll, Extension, Forward",
 				"R3.framing":     "framed read allocation bound and write refusal in both copies",
 				"R5.errors":      "error discipline of every fallible call in the shim package",
-				"R6.deletions":   "who may delete from the in-memory table",
+				"R6.deletions":   "who may delete from the in-memory table; the validity test that decides pruning (imported from C07)",
 				"R7.exclusive":   "raw I/O on the shared connection only under the exclusive lock (imported lock-set obligations)",
 				"R4.bounds":      "index/slice/assertion obligations in the shim package",
 				"R4.nil":         "use-before-error-check (constructor) and json-null obligations",
@@ -57,6 +57,9 @@ func runC10(c *Ctx) {
 	c10Framing(c)
 	c10Errors(c, m)
 	c10Deletions(c, m)
+	// a still-valid in-memory certificate is never discarded: the pruning relies on the validity test, whose nil / clamp /
+	// direction obligations (C07.R5) are therefore obligations here too
+	c.WithRules(map[string]string{"R5.validity": "R6.deletions"}, func() { checkValidity(c) })
 	// relayed bytes are not interleaved with another operation's: raw I/O on the shared connection only under the
 	// exclusive lock (the lock-set obligations of C11 that concern the connection)
 	shimRawRelayExclusive(c, m, "R7.exclusive")
